@@ -5,8 +5,9 @@ every case.  Every case is instantiated as a REAL signed transaction (real keys,
 multi-signature accounts configured by real ModifySignersTx) and handed to a real mining node and, inside a block
 (the miner's, or the one a dishonest deputy would publish when the miner refuses), to a second real node; what the
 nodes did and what changed in the real account state is validated by TLC against the monitor TraceAuth.tla."""
-import json
+import json, os
 import vlib
+os.environ.setdefault("VERIF_TLC_HEAP", "3g")      # the case space is small; do not compete for memory with parallel checks
 LEVEL = "model_checking"
 
 MANIFEST = dict(
